@@ -14,7 +14,7 @@ import sys
 import pysam
 
 LETTERS = 'ACGTN'
-CONTIGS = ['chr1', 'chr2', 'chr3']
+CONTIGS = ['chr1', 'chr11', 'chr1_alt']      # names that are prefixes / substrings of each other
 HDR = pysam.AlignmentHeader.from_dict({'HD': {'VN': '1.6', 'SO': 'coordinate'},
                                        'SQ': [{'SN': c, 'LN': 1000000} for c in CONTIGS]})
 SINGLE = 10 ** 6     # readlen value meaning "single-end": release position = start
@@ -42,7 +42,7 @@ def mk(name, contig, start, seq, cigar, rev, d, paired=False, read1=True, mate_s
     a.query_sequence = seq
     a.query_qualities = pysam.qualitystring_to_array('I' * len(seq))
     a.cigarstring = cigar
-    a.mapping_quality = 60
+    a.mapping_quality = 0 if d.get('mq0') else 60
     flag = 0x10 if rev else 0
     if paired:
         flag |= 0x1 | 0x2 | (0x40 if read1 else 0x80) | (0 if rev else 0x20)
@@ -54,7 +54,7 @@ def mk(name, contig, start, seq, cigar, rev, d, paired=False, read1=True, mate_s
     if paired:
         a.next_reference_id = contig - 1
         a.next_reference_start = mate_start
-    a.set_tag('SM', 'cell%d' % d['cell'])
+    a.set_tag('SM', 'c' + '1' * d['cell'])          # c1, c11, c111, ...: every name is a prefix of the next
     a.set_tag('RX', ''.join(LETTERS[x] for x in d['umi']))
     return a
 
@@ -65,7 +65,16 @@ def build(kind, idx, d, rng):
     name = 'f%d' % idx
     site, flen, strand, clip = d['site'], d['flen'], d['strand'], d.get('clip', 0)
     paired = d['rlen'] != SINGLE
-    r1len = flen if not paired else min(d['rlen'], flen)         # aligned bases of R1
+    r1len = flen if not paired else min(d['rlen'], flen)         # reference bases covered by R1
+    half = paired and d.get('half')                              # R2 unmapped: the fragment is what R1 covers
+    if half:
+        flen = r1len
+    indel = d.get('indel', '') if (not paired and not clip and flen >= 10) else ''
+    qadd = {'I': 1, 'D': -1}.get(indel, 0)                       # query length - reference length of R1
+
+    def cig(n):
+        k = n // 2
+        return '%dM1I%dM' % (k, n - k) if indel == 'I' else ('%dM1D%dM' % (k, n - 1 - k) if indel == 'D' else '%dM' % n)
     motif_ok = not (d.get('how') == 'nomotif')
     # anchor coordinate of R1's 5' end on the reference
     if kind == 'nla':
@@ -77,10 +86,10 @@ def build(kind, idx, d, rng):
     if strand == 0:
         r1s = a5 + clip
         start, end = r1s, r1s + flen
-        body = filler(rng, r1len + clip)
+        body = filler(rng, r1len + clip + qadd)
         if kind == 'nla':
             body = ('CATG' if motif_ok else 'CATA') + body[4:] if len(body) >= 4 else body
-        cigar = ('%dS' % clip if clip else '') + '%dM' % r1len
+        cigar = ('%dS' % clip if clip else '') + cig(r1len)
         r1 = mk(name, d['contig'], r1s, body, cigar, False, d, paired, True, end - min(d['rlen'], flen) if paired else 0)
         r2 = None
         if paired:
@@ -89,21 +98,51 @@ def build(kind, idx, d, rng):
     else:
         r1e = a5 - clip
         end, start = r1e, r1e - flen
-        body = filler(rng, r1len + clip)
+        body = filler(rng, r1len + clip + qadd)
         if kind == 'nla':
             body = body[:-4] + ('CATG' if motif_ok else 'TATG') if len(body) >= 4 else body
-        cigar = '%dM' % r1len + ('%dS' % clip if clip else '')
+        cigar = cig(r1len) + ('%dS' % clip if clip else '')
         r1 = mk(name, d['contig'], r1e - r1len, body, cigar, True, d, paired, True, start if paired else 0)
         r2 = None
         if paired:
             r2len = min(d['rlen'], flen)
             r2 = mk(name, d['contig'], start, filler(rng, r2len), '%dM' % r2len, False, d, True, False, r1e - r1len)
+    if half:
+        # half-mapped pair: R2 is unmapped and placed at R1's position (BAM convention); the span is R1's
+        u = pysam.AlignedSegment(HDR)
+        u.query_name = name
+        u.query_sequence = filler(rng, 8)
+        u.query_qualities = pysam.qualitystring_to_array('I' * 8)
+        u.flag = 0x1 | 0x4 | 0x80 | (0x20 if r1.is_reverse else 0) | (0x400 if d.get('dup') else 0)
+        u.reference_id = r1.reference_id
+        u.reference_start = r1.reference_start
+        u.next_reference_id = r1.reference_id
+        u.next_reference_start = r1.reference_start
+        u.set_tag('SM', r1.get_tag('SM'))
+        u.set_tag('RX', r1.get_tag('RX'))
+        r1.flag = (r1.flag | 0x8) & ~0x2 & ~0x20
+        r1.next_reference_start = r1.reference_start
+        r2 = u
+    if d.get('how') == 'r2only':        # R1 missing: not a valid NLA / CHiC fragment
+        r1 = None
     return (r1, r2), start, end
+
+
+GEN_KEYS = ('flen', 'rlen', 'clip', 'how', 'indel', 'half', 'mq0')
 
 
 def describe(d, start, end):
     return {'cell': d['cell'], 'contig': d['contig'], 'strand': d['strand'], 'site': d['site'], 'start': start, 'end': end,
-            'umi': list(d['umi']), 'valid': bool(d['valid']), 'dup': bool(d.get('dup', False))}
+            'umi': list(d['umi']), 'valid': bool(d['valid']), 'dup': bool(d.get('dup', False)),
+            'gen': {k: d[k] for k in GEN_KEYS if d.get(k)}}       # generator details, only used to rebuild the input for --replay
+
+
+def shift_to_zero(kind, frs, rng):
+    """Translate the whole case so that its left-most alignment starts at reference position 0."""
+    lo = min(min(r.reference_start for r in build(kind, 0, d, rng)[0] if r is not None) for d in frs)
+    for d in frs:
+        d['site'] -= lo
+    return frs
 
 
 def release_key(d_start, d_end, rlen):
@@ -121,7 +160,11 @@ def write_bam(path, reads):
     return path
 
 
-def iterate(kind, reads, *, hd, radius, cap, pooling, sched, cache, tags, bam=None, reuse=False):
+class Abort(BaseException):
+    """Not an Exception subclass (like KeyboardInterrupt): raised by the input after some records."""
+
+
+def iterate(kind, reads, *, hd, radius, cap, pooling, sched, cache, tags, bam=None, reuse=False, shape='tuple'):
     """One run of the real MoleculeIterator. Returns (molecules, raised): molecules = list of
     {at, ov, recs:[{id, dup, rc, af, tf}]} (tags=True, after write_tags) or {at, ids} (tags=False).
     bam: path of a BAM file to read instead of the iterable (pysam.AlignmentFile -> MatePairIterator inside the
@@ -130,12 +173,22 @@ def iterate(kind, reads, *, hd, radius, cap, pooling, sched, cache, tags, bam=No
     mcls, fcls = classes()[kind]
     consumed = [0]
 
+    fail_after = [None]
+
     class Source:                      # re-iterable input that counts what the iterator has consumed in the current pass
         def __iter__(self):
             consumed[0] = 0
             for pair in reads:
+                if fail_after[0] is not None and consumed[0] >= fail_after[0]:
+                    raise Abort()
                 consumed[0] += 1
-                yield pair
+                # the three item shapes MoleculeIterator accepts for a single read: (R1, None), [R1], R1
+                if pair[1] is None and shape == 'bare':
+                    yield pair[0]
+                elif pair[1] is None and shape == 'list1':
+                    yield [pair[0]]
+                else:
+                    yield pair
 
     def source():
         return Source()
@@ -149,9 +202,22 @@ def iterate(kind, reads, *, hd, radius, cap, pooling, sched, cache, tags, bam=No
                           check_eject_every=sched, molecule_class_args=margs, fragment_class_args=fargs)
     out, raised = [], ''
     try:
-        if reuse:                      # history: a first pass over the same iterator object is abandoned after one molecule
+        # histories on the same iterator object before the recorded pass: 'break' (True) = abandoned by the consumer after the
+        # first molecule; 'error' = the input raises a non-Exception after half of the records; 'complete' = a full pass
+        if reuse in (True, 'break'):
             for m in it:
                 break
+        elif reuse == 'error':
+            fail_after[0] = len(reads) // 2
+            try:
+                for m in it:
+                    pass
+            except Abort:
+                pass
+            fail_after[0] = None
+        elif reuse == 'complete':
+            for m in it:
+                pass
         for m in it:
             at = consumed[0] if not bam else len(reads)
             if tags:
